@@ -364,7 +364,7 @@ fn run_script(ctx: &Ctx, rec: &mut Rec, tag: &str, h: &Hist, script: &[Call], st
 				};
 				let ap = guarded(AssertUnwindSafe(|| mon.update_monitor(&u, &bc, &fe, &lg)));
 				match ap {
-					Err(_) => { rec.case(&format!("upd {} {} {}", u.update_id, as_full as u8, tag), "panic | -", &format!("{}:upd:panic-out-of-order", class), true); lines += 1; std::mem::forget(mon); return Some(Outcome { total_ops: store.i.lock().unwrap().n, started, completed, applied, snaps, lines }).map(|o| finish_run(ctx, rec, tag, &store, &persister, &name_s, o, snaps_ref, class, f)); },
+					Err(_) => { rec.case(&format!("upd {} {} {}", u.update_id, as_full as u8, tag), "panic | -", &format!("{}:upd:panic-out-of-order", class), true); lines += 1; std::mem::forget(mon); let total_ops = store.i.lock().unwrap().n; let o = Outcome { total_ops, started, completed, applied, snaps, lines }; return Some(finish_run(ctx, rec, tag, &store, &persister, &name_s, o, snaps_ref, class, f)); },
 					Ok(Err(())) => { rec.discarded += 1; return None; },
 					Ok(Ok(())) => {},
 				}
